@@ -48,7 +48,12 @@ EmptyArgInvs == {[Inv(s, "", FALSE, "stdin", dr, e, "", st, FALSE, FALSE, "wf", 
 NullInvs == {Inv("output", f, m, "null", FALSE, {}, "", FALSE, FALSE, FALSE, "empty", "pipe") : f \in {"", "json"}, m \in B}
             \cup {Inv("mkdir", "", FALSE, "null", dr, {}, "", FALSE, FALSE, FALSE, "empty", "pipe") : dr \in B}
             \cup {Inv("verify", "", FALSE, "null", FALSE, {}, "", s, FALSE, FALSE, "empty", "pipe") : s \in B}
-BaseInvs == EmptyArgInvs \cup NullInvs \cup BigInvs \cup BrokenInvs \cup OutputInvs \cup MkdirInvs \cup VerifyInvs \cup TemplateInvs \cup DotInvs \cup TimeoutInvs \cup WatchInvs \cup UsageInvs \cup InfoInvs
+\* --file /dev/stdin (not seekable) and a --target-dir below a regular file
+DevStdinInvs == {Inv(s, f, FALSE, "devstdin", dr, {}, "", FALSE, FALSE, FALSE, d, "pipe") : s \in {"output", "mkdir", "verify"}, f \in {""}, dr \in {FALSE}, d \in {"wf", "malformed"}}
+                \cup {Inv("output", "json", m, "devstdin", FALSE, {}, "", FALSE, FALSE, FALSE, "wf", "pipe") : m \in B}
+UnderFileInvs == {Inv("mkdir", "", FALSE, "stdin", dr, {}, "reg/sub", FALSE, FALSE, FALSE, d, "pipe") : dr \in B, d \in {"wf", "hostile"}}
+                 \cup {Inv("verify", "", FALSE, "stdin", FALSE, {}, "reg/sub", st, FALSE, FALSE, "wf", "pipe") : st \in B}
+BaseInvs == DevStdinInvs \cup UnderFileInvs \cup EmptyArgInvs \cup NullInvs \cup BigInvs \cup BrokenInvs \cup OutputInvs \cup MkdirInvs \cup VerifyInvs \cup TemplateInvs \cup DotInvs \cup TimeoutInvs \cup WatchInvs \cup UsageInvs \cup InfoInvs
 \* every invocation in its three spellings, with the argv words the real binary is given
 Spelled(S, sps) == {[ [i EXCEPT !.sp = sp] EXCEPT !.argv = Argv([i EXCEPT !.sp = sp])] : i \in S, sp \in sps}
 AllInvs == Spelled(BaseInvs, {"long", "short", "eq"})
